@@ -35,7 +35,8 @@ def timed_history(r, timeout, ties=False):
     T = timeout
     t = 0
     evs = []
-    kinds = ["ENQ", "final", "final", "inter", "corrupt", "EOT", "EOT", "garb", "ACK", "stxgarb", "ENQ"]
+    kinds = ["ENQ", "final", "final", "inter", "corrupt", "EOT", "EOT", "garb", "ACK", "stxgarb", "ENQ", "crlf", "crlf", "crlf+ctl",
+             "empty", "glued"]
     big = False
     for _ in range(r.choice([1, 2, 3, 5, 8, 12])):
         cls = r.choice(["well-below", "well-below", "just-below", "just-above", "several", "tie" if ties else "well-below"])
